@@ -25,8 +25,7 @@ from harness.translate import c14 as tr
 PROP = "C14"
 MODEL = "model_c14"
 # crash sites (open findings) the model reproduces as `crash`
-MODELLED_CRASHES = {"crash:ir_util.py:get_attribute:AssertionError",
-                    "crash:constraints.py:_check_type_requirements_for_field:ValueError"}
+MODELLED_CRASHES = set()      # none left: the model has no `crash` that the real code reaches
 
 
 # ======================================================================== observation
@@ -739,17 +738,18 @@ def finding_cases():
     V = lambda text, kinds, tag: out.append(Case(text, False, "finding-variant", kinds, tag))  # noqa: E731
     V('enum Foo:\n  [is_signed: "yes"]\n  AA = 1\n', {"attr-type:is_signed"}, "fixed F4")
     V('struct Foo:\n  [requires: "yes"]\n  0 [+1] UInt x\n', {"attr-type:requires"}, "fixed F4")
-    V('enum Foo:\n  [maximum_bits: 8]\n  [(cpp) maximum_bits: 16]\n  AA = 1\n', None, "qualified duplicate")
-    V('[expected_back_ends: "cpp, xx"]\nenum Foo:\n  [(xx) maximum_bits: 4]\n  AA = 100\n', None,
-      "qualified maximum_bits narrows the enum")
+    # back-end-qualified namesakes of front-end attributes (fixed: corpus/C14/fixed-lookup-*.json)
+    V('[expected_back_ends: "cpp, xx"]\nenum Foo:\n  [(xx) maximum_bits: 8]\n  [maximum_bits: 4]\n  AA = 16\n',
+      {"enum-value-range"}, "the unqualified maximum_bits counts, wherever it stands")
+    V('[expected_back_ends: "cpp, xx"]\nenum Foo:\n  [maximum_bits: 4]\n  [(xx) maximum_bits: 8]\n  AA = 16\n',
+      {"enum-value-range"}, "the unqualified maximum_bits counts, wherever it stands")
+    V('[expected_back_ends: "cpp, xx"]\nstruct Foo:\n  [(xx) fixed_size_in_bits: 16]\n  [fixed_size_in_bits: 24]\n'
+      '  0 [+2]  UInt  x\n    [byte_order: "BigEndian"]\n', {"fixed-size-mismatch"},
+      "the unqualified fixed_size_in_bits counts")
     V('external Ext:\n  [addressable_unit_size: 8]\n  [is_integer: 3]\nstruct Foo:\n  0 [+1]  UInt  x\n',
       {"attr-type:is_integer"}, "is_integer integer")
     V('[expected_back_ends: true]\nstruct Foo:\n  0 [+1]  UInt  x\n', {"attr-type:expected_back_ends"},
       "expected_back_ends boolean")
-    V('[expected_back_ends: "cpp, xx"]\n[(xx) expected_back_ends: true]\nstruct Foo:\n  0 [+1]  UInt  x\n',
-      None, "qualified duplicate of expected_back_ends")
-    V('struct Foo:\n  0 [+2]  UInt  x\n    [byte_order: "BigEndian"]\n    [(cpp) byte_order: "LittleEndian"]\n',
-      None, "qualified duplicate of byte_order")
     return out
 
 
